@@ -54,7 +54,16 @@ contract(IN + ".renderwob",
 
 
 # int_param (DT_In): literal digits or a namespace lookup; no push/pop.
+def _int_param_frame(E, outcome, value, env, prefix):
+    p = env.locals['params']
+    writes = [t for t in E.trace if t[0] == 'dict_set' and t[1] == p.addr]
+    E.oblige(prefix + '::frame.params_not_modified', len(writes) == 0, kind='frame',
+             detail="the tag's compiled parameter dictionary is only read: literal or variable, the parameter is resolved "
+                    "again on every rendering (C11 parameters given through variables, C17 repeatability)")
+
+
 contract('DocumentTemplate.DT_In.int_param',
+         exit_hook=_int_param_frame,
          params=dict(params=DictS(), md=TD(), name=Opaque(), default=Opaque()),
          ensures=dict(SN), exc_ensures=dict(SN), raises_any=True, returns=Opaque(), uses=[GI])
 
